@@ -172,3 +172,19 @@ Theorem C14_idp_action_registered :
     tokenize_form html = Some (intended_of FIdpResponse data).
 Proof. exact idp_flow_action_registered. Qed.
 Print Assumptions C14_idp_action_registered.
+
+(* IdP-initiated flow (ServeIDPInitiated): for every list of SPSSODescriptors with
+   any number of assertion consumer services of any bindings, a form is emitted
+   iff there is an HTTP-POST endpoint, and its action is the FIRST one in
+   document order, with exactly the intended structure *)
+Theorem C14_idp_initiated_first_post :
+  forall descs msg relay,
+  match first_post_location (List.concat descs) with
+  | Some loc =>
+      let data := {| fd_url := loc; fd_msg := msg; fd_relay := relay; fd_toast := EmptyString |} in
+      idp_initiated_form descs msg relay = (0, render_form FIdpResponse data)
+      /\ tokenize_form (render_form FIdpResponse data) = Some (intended_of FIdpResponse data)
+  | None => idp_initiated_form descs msg relay = (2, EmptyString)
+  end.
+Proof. exact idp_initiated_first_post. Qed.
+Print Assumptions C14_idp_initiated_first_post.
